@@ -1,41 +1,20 @@
-(* C07.5 and the races between publish() and reconnect() executed by the loop thread.
-   The FULL statements (every schedule) are FALSE in the faithful model; each gets
-     - a [_refuted] lemma with a concrete witness schedule (checked by vm_compute), and
-     - a [_partial] theorem: the statement holds for every schedule that never visits a configuration in
-       which a publisher sits between its `self._sock is None` test and its deque append while the loop
-       thread is inside the corresponding window of reconnect().
-   (a) CONNECT first      window = after `_out_packet.clear()`, until CONNECT has been appended   [race_a]
-   (b) no internal error  window = the `for pkt in self._out_packet` iteration                     [race_b]
-   (d) no silent loss     window = from the start of that iteration until `clear()`                [race_d] *)
+(* C07.5 and the interplay of publish() with reconnect() executed by the loop thread - code as of /repo
+   commits c6905fd (reconnect() drains the queue with one popleft per step and marks what it takes) and
+   0ed8c5c (CONNECT is queued with appendleft).  With these the three statements that the earlier code refuted
+   (findings F-C07a, F-C07b, F-C07d; their witness schedules are kept in corpus/C07 as regression replays) are
+   FULL theorems: every schedule, any number of publishers, any starting point of the loop thread, no exclusion.
+   (a) CONNECT is the first packet on every connection;
+   (b) the loop thread has no failing step: the only configuration in which it cannot step is "parked in
+       select() with nothing ready" (no iterator over a deque that others mutate, popleft on empty is handled);
+   (d) nothing is lost silently: every packet a publisher appended is written, in hand, queued or marked lost. *)
 From PahoV Require Import Base.Prelude Codec.Mid Conc.Sched Conc.SchedLemmas.
-
-(* ------------------------------------------------------------------ schedules that avoid a set of configurations *)
-Lemma safe_run_inv (bad : conf -> bool) (P : conf -> Prop) :
-  (forall t c c', P c -> bad c = false -> tstep t c = Some c' -> P c') ->
-  forall s c, safe_run bad s c = true -> P c -> P (sched_run s c).
-Proof.
-  intros Hstep s. induction s as [|t s IH]; intros c Hs Hc; cbn [safe_run sched_run] in *; [assumption|].
-  apply andb_true_iff in Hs as [Hb Hs]. apply negb_true_iff in Hb.
-  apply IH; [assumption|]. unfold step_or_skip. destruct (tstep t c) as [c'|] eqn:E; [|assumption].
-  eapply Hstep; eassumption.
-Qed.
-
-Lemma no_race_no_append (w : lpc -> bool) c i p :
-  w (loop c) && existsb (at_pc PAppend) (pubs c) = false -> w (loop c) = true ->
-  nth_error (pubs c) i = Some p -> pc p <> PAppend.
-Proof.
-  intros Hr Hw Hp E. rewrite Hw in Hr. cbn in Hr.
-  assert (X : existsb (at_pc PAppend) (pubs c) = true).
-  { apply existsb_exists. exists p. split; [eapply nth_error_In; eassumption|]. unfold at_pc. rewrite E. reflexivity. }
-  congruence.
-Qed.
 
 (* what a publisher step does to the deque *)
 Lemma pstep_queue_shape i p c c' : pstep i p c = Some c' ->
   marked c' = marked c /\
-  ( (pc p = PAppend /\ out_packet c' = out_packet c ++ [Publish i (idx p) (ret p)] /\ qver c' = S (qver c) /\
+  ( (pc p = PAppend /\ out_packet c' = out_packet c ++ [Publish i (idx p) (ret p)] /\
      exists p', pubs c' = upd i p' (pubs c) /\ sentp p' = sentp p ++ [Publish i (idx p) (ret p)])
- \/ (pc p <> PAppend /\ out_packet c' = out_packet c /\ qver c' = qver c /\
+ \/ (pc p <> PAppend /\ out_packet c' = out_packet c /\
      exists p', pubs c' = upd i p' (pubs c) /\ sentp p' = sentp p) ).
 Proof.
   intros Hs. unfold pstep in Hs.
@@ -81,31 +60,27 @@ Definition KInv (c : conf) : Prop :=
   (forall k p, In (k, p) (wire c) -> k < nconn c) /\
   (forall k, sock c = Some k -> k < nconn c) /\
   (forall k, sock c = Some k -> after_connect (loop c) = true -> seen k (wire c) = false ->
-             exists rest, pending c = Connect k :: rest) /\
-  (in_window_a (loop c) = true -> out_packet c = []).
+             exists rest, pending c = Connect k :: rest).
 
-Lemma KInv_init m0 l0 pipe0 nmsgs : in_send l0 = [] -> in_window_a l0 = false -> KInv (init m0 l0 pipe0 nmsgs).
+Lemma KInv_init m0 l0 pipe0 nmsgs : KInv (init m0 l0 pipe0 nmsgs).
 Proof.
-  intros Hi Hw. unfold KInv, init; cbn. split; [reflexivity|]. split; [|split; [|split]].
+  unfold KInv, init; cbn. split; [reflexivity|]. split; [|split].
   - intros k p [H|[]]. inversion H; subst. lia.
   - intros k H. inversion H; subst. lia.
   - intros k H _ Hs. inversion H; subst. cbn in Hs. discriminate.
-  - intros H. congruence.
 Qed.
 
-Lemma KInv_pstep i p c c' : KInv c -> race_a c = false -> nth_error (pubs c) i = Some p ->
-  pstep i p c = Some c' -> KInv c'.
+Lemma KInv_pstep i p c c' : KInv c -> pstep i p c = Some c' -> KInv c'.
 Proof.
-  intros (K1 & K2 & K3 & K4 & K5) Hr Hp Hs.
-  destruct (pstep_frame i p c c' Hs) as (Ew & Es & El & _ & _ & En & _).
+  intros (K1 & K2 & K3 & K4) Hs.
+  destruct (pstep_frame i p c c' Hs) as (Ew & Es & El & _ & En & _).
   destruct (pstep_queue_shape i p c c' Hs) as (_ & Hq).
   unfold KInv, pending. rewrite Ew, Es, El, En.
   destruct Hq as [(Epc & Eq & _)|(Epc & Eq & _)]; rewrite Eq.
-  - repeat split; try assumption.
-    + intros k Hk Ha Hsn. destruct (K4 k Hk Ha Hsn) as [rest Hrest]. unfold pending in Hrest.
-      exists (rest ++ [Publish i (idx p) (ret p)]). rewrite app_assoc, Hrest. reflexivity.
-    + intros Hw. exfalso. exact (no_race_no_append in_window_a c i p Hr Hw Hp Epc).
-  - repeat split; assumption.
+  - split; [assumption|]. split; [assumption|]. split; [assumption|].
+    intros k Hk Ha Hsn. destruct (K4 k Hk Ha Hsn) as [rest Hrest]. unfold pending in Hrest.
+    exists (rest ++ [Publish i (idx p) (ret p)]). rewrite app_assoc, Hrest. reflexivity.
+  - split; [assumption|]. split; [assumption|]. split; assumption.
 Qed.
 
 Ltac fin_k4 K4 :=
@@ -116,19 +91,17 @@ Ltac fin_k4 K4 :=
 
 Lemma KInv_lstep c c' : KInv c -> lstep c = Some c' -> KInv c'.
 Proof.
-  intros (K1 & K2 & K3 & K4 & K5) Hs. unfold lstep in Hs. unfold KInv, pending in *.
-  destruct (loop c) as [|wl| | |x| | |ver k| | | | |] eqn:El; cbn [after_connect in_window_a in_send] in *.
-  - (* LWant *) inversion Hs; subst; cbn. repeat split; auto; try (intros H; discriminate).
+  intros (K1 & K2 & K3 & K4) Hs. unfold lstep in Hs. unfold KInv, pending in *.
+  destruct (loop c) as [|wl| | |x| | | | |] eqn:El; cbn [after_connect in_send] in *.
+  - (* LWant *) inversion Hs; subst; cbn. repeat split; auto.
   - (* LSelect *)
-    destruct (0 <? pipe c)%nat; [|destruct wl; [|discriminate]]; inversion Hs; subst; cbn; repeat split; auto;
-      try (intros H; discriminate).
-  - (* LDrain *) inversion Hs; subst; cbn. repeat split; auto; try (intros H; discriminate).
+    destruct (0 <? pipe c)%nat; [|destruct wl; [|discriminate]]; inversion Hs; subst; cbn; repeat split; auto.
+  - (* LDrain *) inversion Hs; subst; cbn. repeat split; auto.
   - (* LPop *)
-    destruct (out_packet c) as [|y q] eqn:Eq; inversion Hs; subst; cbn; repeat split; auto;
-      try (intros H; discriminate); fin_k4 K4.
+    destruct (out_packet c) as [|y q] eqn:Eq; inversion Hs; subst; cbn; repeat split; auto; fin_k4 K4.
   - (* LSend *)
     destruct (sock c) as [k|] eqn:Ek; inversion Hs; subst; cbn.
-    + split; [|split; [|split; [|split]]].
+    + split; [|split; [|split]].
       * rewrite wire_ok_snoc, K1. cbn. destruct (seen k (wire c)) eqn:Esn; [reflexivity|].
         destruct (K4 k eq_refl eq_refl Esn) as [rest Hrest]. cbn in Hrest. inversion Hrest; subst. cbn.
         apply Z.eqb_refl.
@@ -137,204 +110,141 @@ Proof.
       * assumption.
       * intros k' Hk' _ Hsn. inversion Hk'; subst. rewrite seen_app in Hsn. cbn in Hsn.
         rewrite Z.eqb_refl, orb_true_r in Hsn. discriminate.
-      * intros H; discriminate.
-    + split; [assumption|]. split; [assumption|]. split; [intros k' H; discriminate|].
-      split; [intros k' H; discriminate | intros H; discriminate].
+    + split; [assumption|]. split; [assumption|]. split; intros k' H; discriminate.
   - (* RClose *) inversion Hs; subst; cbn. split; [assumption|]. split; [assumption|].
-    split; [intros k' H; discriminate|]. split; [intros k' H; discriminate | intros H; discriminate].
-  - (* RIterStart *) inversion Hs; subst; cbn. split; [assumption|]. split; [assumption|]. split; [assumption|].
-    split; [intros k' H H'; discriminate | intros H; discriminate].
-  - (* RIter *)
-    destruct (negb (Nat.eqb (qver c) ver)); [|destruct k]; inversion Hs; subst; cbn;
-      (split; [assumption|]; split; [assumption|]; split; [assumption|];
-       split; [intros k' H H'; discriminate | intros H; discriminate]).
-  - (* RClear *) inversion Hs; subst; cbn. split; [assumption|]. split; [assumption|]. split; [assumption|].
-    split; [intros k' H H'; discriminate | reflexivity].
-  - (* RSock *) inversion Hs; subst; cbn. split; [assumption|]. split; [|split; [|split]].
+    split; intros k' H; discriminate.
+  - (* RDrain *)
+    destruct (out_packet c) as [|y q] eqn:Eq; inversion Hs; subst; cbn;
+      (split; [assumption|]; split; [assumption|]; split; [assumption|]; intros k' H H'; discriminate).
+  - (* RSock *) inversion Hs; subst; cbn. split; [assumption|]. split; [|split].
     + intros k' p' Hin. specialize (K2 k' p' Hin). lia.
     + intros k' H. inversion H; subst. lia.
     + intros k' H H'; discriminate.
-    + intros _. apply K5. reflexivity.
-  - (* RConnect *)
+  - (* RConnect: appendleft puts CONNECT ahead of whatever was queued since the socket exists *)
     destruct (sock c) as [k|] eqn:Ek; [|discriminate]. inversion Hs; subst; cbn.
-    split; [assumption|]. split; [assumption|]. split; [assumption|]. split.
-    + intros k' Hk' _ _. inversion Hk'; subst. rewrite (K5 eq_refl). exists []. reflexivity.
-    + intros H; discriminate.
+    split; [assumption|]. split; [assumption|]. split; [assumption|].
+    intros k' Hk' _ _. inversion Hk'; subst. eexists. reflexivity.
   - (* RWake *) inversion Hs; subst; cbn. split; [assumption|]. split; [assumption|]. split; [assumption|].
-    split; [fin_k4 K4 | intros H; discriminate].
-  - discriminate.
+    fin_k4 K4.
 Qed.
 
-Lemma KInv_step t c c' : KInv c -> race_a c = false -> tstep t c = Some c' -> KInv c'.
+Lemma KInv_step t c c' : KInv c -> tstep t c = Some c' -> KInv c'.
 Proof.
-  intros HK Hr Hs. apply tstep_cases in Hs as [[_ Hs]|[[_ Hs]|(i & p & _ & Hp & Hs)]].
+  intros HK Hs. apply tstep_cases in Hs as [[_ Hs]|[[_ Hs]|(i & p & _ & Hp & Hs)]].
   - eapply KInv_lstep; eassumption.
-  - destruct HK as (K1 & K2 & K3 & K4 & K5).
-    destruct (timeout_frame c c' Hs) as (_ & _ & _ & _ & Eo & Ew & _ & Es & El & _ & El' & _ & _ & En).
-    unfold KInv, pending. rewrite Ew, Es, En, Eo, El'. cbn. repeat split; try assumption.
-    + intros k Hk _ Hsn. assert (Ha : after_connect (loop c) = true) by (rewrite El; reflexivity).
-      specialize (K4 k Hk Ha Hsn). unfold pending in K4. rewrite El in K4. exact K4.
-    + intros H; discriminate.
+  - destruct HK as (K1 & K2 & K3 & K4).
+    destruct (timeout_frame c c' Hs) as (_ & _ & _ & _ & Eo & Ew & _ & Es & El & _ & El' & En).
+    unfold KInv, pending. rewrite Ew, Es, En, Eo, El'. cbn. split; [assumption|]. split; [assumption|].
+    split; [assumption|].
+    intros k Hk _ Hsn. assert (Ha : after_connect (loop c) = true) by (rewrite El; reflexivity).
+    specialize (K4 k Hk Ha Hsn). unfold pending in K4. rewrite El in K4. exact K4.
   - eapply KInv_pstep; eassumption.
 Qed.
 
-Definition connect_first_full : Prop :=
-  forall m0 nmsgs s, wire_ok (wire (sched_run s (init_reconnect m0 nmsgs))) = true.
-
-(* witness: reconnect() up to `self._sock = ...`, then one whole publish(), then _send_connect and a write *)
-Definition witness_a : list tid := repeat Loop 5 ++ repeat (Pub 0) 8 ++ repeat Loop 7.
-
-Lemma connect_first_refuted :
-  wire (sched_run witness_a (init_reconnect 0 [1%nat])) = [(1, Connect 1); (2, Publish 0 0 1)] /\
-  wire_ok (wire (sched_run witness_a (init_reconnect 0 [1%nat]))) = false /\
-  sched_skipped witness_a (init_reconnect 0 [1%nat]) = O.
-Proof. vm_compute. repeat split; reflexivity. Qed.
-
-Lemma connect_first_full_false : ~ connect_first_full.
-Proof. intros H. specialize (H 0 [1%nat] witness_a). destruct connect_first_refuted as (_ & E & _). congruence. Qed.
-
-Theorem connect_first_partial m0 l0 pipe0 nmsgs s : in_send l0 = [] -> in_window_a l0 = false ->
-  safe_run race_a s (init m0 l0 pipe0 nmsgs) = true ->
+(* (a) every schedule: the first packet written on each connection is its CONNECT *)
+Theorem connect_first m0 l0 pipe0 nmsgs s :
   wire_ok (wire (sched_run s (init m0 l0 pipe0 nmsgs))) = true.
 Proof.
-  intros Hi Hw Hsafe.
   assert (G : KInv (sched_run s (init m0 l0 pipe0 nmsgs))).
-  { apply (safe_run_inv race_a KInv); [intros t c c'; apply KInv_step | assumption | apply KInv_init; assumption]. }
+  { apply run_inv; [intros t c c'; apply KInv_step | apply KInv_init]. }
   exact (proj1 G).
 Qed.
 
-(* ================================================================== (b) deque mutated during iteration *)
-Definition BInv (c : conf) : Prop :=
-  crashed c = false /\ (forall ver k, loop c = RIter ver k -> qver c = ver).
+(* ================================================================== (b) the loop thread never fails *)
+Definition SInv (c : conf) : Prop := loop c = RConnect -> exists k, sock c = Some k.
 
-Lemma BInv_step t c c' : BInv c -> race_b c = false -> tstep t c = Some c' -> BInv c'.
+Lemma SInv_step t c c' : SInv c -> tstep t c = Some c' -> SInv c'.
 Proof.
-  intros (B1 & B2) Hr Hs. apply tstep_cases in Hs as [[_ Hs]|[[_ Hs]|(i & p & _ & Hp & Hs)]].
-  - unfold lstep in Hs. unfold BInv.
-    destruct (loop c) as [|wl| | |x| | |ver k| | | | |] eqn:El;
-      try (repeat match type of Hs with
-                  | context [if ?b then _ else _] => destruct b eqn:?
-                  | context [match ?x with _ => _ end] => destruct x eqn:?
-                  end; try discriminate; inversion Hs; subst; cbn; (split; [assumption|]);
-           intros v k' H; try discriminate; inversion H; subst; reflexivity).
-    (* RIter: the version still matches, so the iterator does not raise *)
-    rewrite (B2 ver k eq_refl), Nat.eqb_refl in Hs. cbn in Hs.
-    destruct k; inversion Hs; subst; cbn; (split; [assumption|]); intros v k' H; try discriminate.
-    inversion H; subst. apply (B2 v (S k') eq_refl).
-  - destruct (timeout_frame c c' Hs) as (_ & _ & _ & _ & _ & _ & _ & _ & _ & _ & El' & Ec & _).
-    unfold BInv. rewrite Ec, El'. split; [assumption|]. intros v k H; discriminate.
-  - destruct (pstep_frame i p c c' Hs) as (_ & _ & El & Ec & _).
-    destruct (pstep_queue_shape i p c c' Hs) as (_ & [(Epc & _ & Eq & _)|(Epc & _ & Eq & _)]).
-    + unfold BInv. rewrite Ec, El. split; [assumption|]. intros v k H. exfalso.
-      apply (no_race_no_append in_window_b c i p Hr); [rewrite H; reflexivity | assumption | assumption].
-    + unfold BInv. rewrite Ec, El, Eq. split; assumption.
+  intros HS Hs. apply tstep_cases in Hs as [[_ Hs]|[[_ Hs]|(i & p & _ & Hp & Hs)]].
+  - unfold lstep in Hs. unfold SInv in *.
+    destruct (loop c) as [|wl| | |x| | | | |] eqn:El;
+      repeat match type of Hs with
+             | context [if ?b then _ else _] => destruct b eqn:?
+             | context [match ?x with _ => _ end] => destruct x eqn:?
+             end; try discriminate; inversion Hs; subst; cbn; intros H; try discriminate.
+    eexists; reflexivity.
+  - destruct (timeout_frame c c' Hs) as (_ & _ & _ & _ & _ & _ & _ & _ & _ & _ & El' & _).
+    unfold SInv. rewrite El'. discriminate.
+  - destruct (pstep_frame i p c c' Hs) as (_ & Es & El & _). unfold SInv. rewrite Es, El. exact HS.
 Qed.
 
-Definition no_internal_error_full : Prop :=
-  forall m0 nmsgs s, crashed (sched_run s (init_reconnect m0 nmsgs)) = false.
-
-(* witness: the publisher passes `self._sock is None` on the old connection, reconnect() starts iterating,
-   the publisher appends, the iterator notices *)
-Definition witness_b : list tid := repeat (Pub 0) 7 ++ [Loop; Loop; Pub 0; Loop].
-
-Lemma no_internal_error_refuted :
-  crashed (sched_run witness_b (init_reconnect 0 [1%nat])) = true /\
-  sched_skipped witness_b (init_reconnect 0 [1%nat]) = O.
-Proof. vm_compute. split; reflexivity. Qed.
-
-Lemma no_internal_error_full_false : ~ no_internal_error_full.
-Proof. intros H. specialize (H 0 [1%nat] witness_b). destruct no_internal_error_refuted as (E & _). congruence. Qed.
-
-Theorem no_internal_error_partial m0 l0 pipe0 nmsgs s :
-  (forall ver k, l0 <> RIter ver k) ->
-  safe_run race_b s (init m0 l0 pipe0 nmsgs) = true ->
-  crashed (sched_run s (init m0 l0 pipe0 nmsgs)) = false.
+Theorem loop_never_fails m0 l0 pipe0 nmsgs s :
+  let c := sched_run s (init m0 l0 pipe0 nmsgs) in
+  tstep Loop c = None -> loop c = LSelect false /\ pipe c = O.
 Proof.
-  intros Hl Hsafe.
-  assert (G : BInv (sched_run s (init m0 l0 pipe0 nmsgs))).
-  { apply (safe_run_inv race_b BInv); [intros t c c'; apply BInv_step | assumption |].
-    split; [reflexivity|]. intros v k H. cbn in H. exfalso. exact (Hl v k H). }
-  exact (proj1 G).
+  intros c Hn.
+  assert (HS : SInv c).
+  { apply run_inv; [intros t x x'; apply SInv_step|]. unfold SInv, init; cbn. intros _. eexists; reflexivity. }
+  cbn [tstep] in Hn. unfold lstep in Hn.
+  destruct (loop c) as [|wl| | |x| | | | |] eqn:El; try discriminate.
+  - destruct (0 <? pipe c)%nat eqn:Ep; [discriminate|]. destruct wl; [discriminate|].
+    apply Nat.ltb_ge in Ep. split; [reflexivity|lia].
+  - destruct (out_packet c); discriminate.
+  - destruct (sock c); discriminate.
+  - destruct (out_packet c); discriminate.
+  - destruct (HS El) as [k Hk]. rewrite Hk in Hn. discriminate.
 Qed.
 
-(* ================================================================== (d) packets dropped without being marked lost *)
+(* ================================================================== (d) nothing is dropped unmarked *)
 Definition DInv (c : conf) : Prop :=
-  (forall i p x, nth_error (pubs c) i = Some p -> In x (sentp p) -> In x (flight c) \/ In x (marked c)) /\
-  (in_window_d (loop c) = true -> incl (out_packet c) (marked c)).
+  forall i p x, nth_error (pubs c) i = Some p -> In x (sentp p) -> In x (flight c) \/ In x (marked c).
 
-Lemma DInv_init m0 l0 pipe0 nmsgs : in_window_d l0 = false -> DInv (init m0 l0 pipe0 nmsgs).
+Lemma DInv_init m0 l0 pipe0 nmsgs : DInv (init m0 l0 pipe0 nmsgs).
 Proof.
-  intros Hw. unfold DInv, init; cbn. split.
-  - intros i p x Hp Hx. apply nth_error_In in Hp. apply in_map_iff in Hp as [n [<- _]]. destruct n; contradiction.
-  - intros H; congruence.
+  unfold DInv, init; cbn. intros i p x Hp Hx.
+  apply nth_error_In in Hp. apply in_map_iff in Hp as [n [<- _]]. destruct n; contradiction.
 Qed.
 
 Lemma DInv_lstep c c' : DInv c -> lstep c = Some c' -> DInv c'.
 Proof.
-  intros (D1 & D2) Hs. destruct (lstep_frame c c' Hs) as (Ep & _).
+  intros D1 Hs. destruct (lstep_frame c c' Hs) as (Ep & _).
   unfold lstep in Hs. unfold DInv, flight in *. rewrite Ep.
-  destruct (loop c) as [|wl| | |x| | |ver k| | | | |] eqn:El; cbn [in_window_d in_send] in *.
-  - inversion Hs; subst; cbn. split; [exact D1 | intros H; discriminate].
-  - destruct (0 <? pipe c)%nat; [|destruct wl; [|discriminate]]; inversion Hs; subst; cbn;
-      (split; [exact D1 | intros H; discriminate]).
-  - inversion Hs; subst; cbn. split; [exact D1 | intros H; discriminate].
-  - destruct (out_packet c) as [|y q] eqn:Eq; inversion Hs; subst; cbn in D1 |- *; rewrite ?Eq;
-      (split; [|intros H; discriminate]).
-    + exact D1.
-    + intros i p x Hp Hx. exact (D1 i p x Hp Hx).
-  - destruct (sock c) as [k|] eqn:Ek; inversion Hs; subst; cbn; (split; [|intros H; discriminate]).
+  destruct (loop c) as [|wl| | |x| | | | |] eqn:El; cbn [in_send] in *.
+  - inversion Hs; subst; cbn. exact D1.
+  - destruct (0 <? pipe c)%nat; [|destruct wl; [|discriminate]]; inversion Hs; subst; cbn; exact D1.
+  - inversion Hs; subst; cbn. exact D1.
+  - destruct (out_packet c) as [|y q] eqn:Eq; inversion Hs; subst; cbn in D1 |- *; rewrite ?Eq; exact D1.
+  - destruct (sock c) as [k|] eqn:Ek; inversion Hs; subst; cbn.
     + intros i p z Hp Hz. destruct (D1 i p z Hp Hz) as [H|H]; [left|right; assumption].
       rewrite map_app. cbn. rewrite <- app_assoc. exact H.
     + intros i p z Hp Hz. exact (D1 i p z Hp Hz).
-  - inversion Hs; subst; cbn. split; [exact D1 | intros H; discriminate].
-  - (* RIterStart: everything queued now is going to be marked *)
-    inversion Hs; subst; cbn. split.
-    + intros i p z Hp Hz. destruct (D1 i p z Hp Hz) as [H|H]; [left; exact H | right; apply in_or_app; left; exact H].
-    + intros _ z Hz. apply in_or_app; right; exact Hz.
-  - (* RIter *)
-    destruct (negb (Nat.eqb (qver c) ver)); [|destruct k]; inversion Hs; subst; cbn.
-    + split; [exact D1 | intros H; discriminate].
-    + split; [exact D1 | intros _; apply D2; reflexivity].
-    + split; [exact D1 | intros _; apply D2; reflexivity].
-  - (* RClear: whatever disappears has been marked *)
-    inversion Hs; subst; cbn. split; [|intros H; discriminate].
-    intros i p z Hp Hz. destruct (D1 i p z Hp Hz) as [H|H]; [|right; assumption].
-    apply in_app_or in H as [H|H]; [left; apply in_or_app; left; exact H|].
-    cbn in H. right. apply (D2 eq_refl). exact H.
-  - inversion Hs; subst; cbn. split; [exact D1 | intros H; discriminate].
-  - destruct (sock c) as [k|]; [|discriminate]. inversion Hs; subst; cbn. split; [|intros H; discriminate].
+  - inversion Hs; subst; cbn. exact D1.
+  - (* RDrain: what leaves the queue is marked *)
+    destruct (out_packet c) as [|y q] eqn:Eq; inversion Hs; subst; cbn in D1 |- *; rewrite ?Eq; [exact D1|].
+    intros i p z Hp Hz. destruct (D1 i p z Hp Hz) as [H|H].
+    + apply in_app_or in H as [H|[H|H]].
+      * left. apply in_or_app; left; exact H.
+      * subst z. right. apply in_or_app; right; left; reflexivity.
+      * left. apply in_or_app; right; exact H.
+    + right. apply in_or_app; left; exact H.
+  - inversion Hs; subst; cbn. exact D1.
+  - destruct (sock c) as [k|]; [|discriminate]. inversion Hs; subst; cbn.
     intros i p z Hp Hz. destruct (D1 i p z Hp Hz) as [H|H]; [left|right; assumption].
-    cbn in H. rewrite app_assoc. apply in_or_app; left. exact H.
-  - inversion Hs; subst; cbn. split; [exact D1 | intros H; discriminate].
-  - discriminate.
+    cbn in H. apply in_app_or in H as [H|H]; apply in_or_app; [left; exact H | right; right; exact H].
+  - inversion Hs; subst; cbn. exact D1.
 Qed.
 
-Lemma DInv_step t c c' : DInv c -> race_d c = false -> tstep t c = Some c' -> DInv c'.
+Lemma DInv_step t c c' : DInv c -> tstep t c = Some c' -> DInv c'.
 Proof.
-  intros HD Hr Hs. apply tstep_cases in Hs as [[_ Hs]|[[_ Hs]|(i & p & _ & Hp & Hs)]].
+  intros D1 Hs. apply tstep_cases in Hs as [[_ Hs]|[[_ Hs]|(i & p & _ & Hp & Hs)]].
   - eapply DInv_lstep; eassumption.
-  - destruct HD as (D1 & D2).
-    destruct (timeout_frame c c' Hs) as (Ep & _ & _ & _ & Eo & Ew & _ & _ & El & _ & El' & _).
+  - destruct (timeout_frame c c' Hs) as (Ep & _ & _ & _ & Eo & Ew & _ & _ & El & _ & El' & _).
     assert (Em : marked c' = marked c).
     { unfold timeout_step in Hs. rewrite El in Hs. destruct (0 <? pipe c)%nat; [discriminate|]. inversion Hs; reflexivity. }
-    unfold DInv, flight. rewrite Ep, Eo, Ew, El', Em. cbn. split; [|intros H; discriminate].
+    unfold DInv, flight. rewrite Ep, Eo, Ew, El', Em. cbn.
     intros j q x Hq Hx. specialize (D1 j q x Hq Hx). unfold flight in D1. rewrite El in D1. exact D1.
-  - destruct HD as (D1 & D2).
-    destruct (pstep_frame i p c c' Hs) as (Ew & _ & El & _).
+  - destruct (pstep_frame i p c c' Hs) as (Ew & _ & El & _).
     destruct (pstep_queue_shape i p c c' Hs) as (Em & Hq).
     unfold DInv, flight. rewrite Ew, El, Em.
-    destruct Hq as [(Epc & Eq & _ & p' & Epubs & Es)|(Epc & Eq & _ & p' & Epubs & Es)]; rewrite Eq, Epubs.
-    + split.
-      * intros j q x Hj Hx. apply nth_upd_inv in Hj as [[<- ->]|[Hne Hj]].
-        -- rewrite Es in Hx. apply in_app_or in Hx as [Hx|[Hx|[]]].
-           ++ destruct (D1 i p x Hp Hx) as [H|H]; [left|right; assumption].
-              unfold flight in H. rewrite !app_assoc. apply in_or_app; left. rewrite <- app_assoc. exact H.
-           ++ subst x. left. rewrite !app_assoc. apply in_or_app; right; left; reflexivity.
-        -- destruct (D1 j q x Hj Hx) as [H|H]; [left|right; assumption].
+    destruct Hq as [(Epc & Eq & p' & Epubs & Es)|(Epc & Eq & p' & Epubs & Es)]; rewrite Eq, Epubs.
+    + intros j q x Hj Hx. apply nth_upd_inv in Hj as [[<- ->]|[Hne Hj]].
+      * rewrite Es in Hx. apply in_app_or in Hx as [Hx|[Hx|[]]].
+        -- destruct (D1 i p x Hp Hx) as [H|H]; [left|right; assumption].
            unfold flight in H. rewrite !app_assoc. apply in_or_app; left. rewrite <- app_assoc. exact H.
-      * intros Hw. exfalso. exact (no_race_no_append in_window_d c i p Hr Hw Hp Epc).
-    + split; [|exact D2].
-      intros j q x Hj Hx. apply nth_upd_inv in Hj as [[<- ->]|[Hne Hj]].
+        -- subst x. left. rewrite !app_assoc. apply in_or_app; right; left; reflexivity.
+      * destruct (D1 j q x Hj Hx) as [H|H]; [left|right; assumption].
+        unfold flight in H. rewrite !app_assoc. apply in_or_app; left. rewrite <- app_assoc. exact H.
+    + intros j q x Hj Hx. apply nth_upd_inv in Hj as [[<- ->]|[Hne Hj]].
       * rewrite Es in Hx. exact (D1 i p x Hp Hx).
       * exact (D1 j q x Hj Hx).
 Qed.
@@ -344,41 +254,34 @@ Proof. destruct x; cbn; rewrite ?Nat.eqb_refl, ?Z.eqb_refl; reflexivity. Qed.
 
 Lemma DInv_conserved c : DInv c -> conserved c = true.
 Proof.
-  intros (D1 & _). unfold conserved. apply forallb_forall. intros p Hp. apply forallb_forall. intros x Hx.
+  intros D1. unfold conserved. apply forallb_forall. intros p Hp. apply forallb_forall. intros x Hx.
   apply In_nth_error in Hp as [i Hi]. apply existsb_exists. exists x. split; [|apply pkt_eqb_refl].
   apply in_or_app. exact (D1 i p x Hi Hx).
 Qed.
 
-Definition no_silent_loss_full : Prop :=
-  forall m0 nmsgs s, conserved (sched_run s (init_reconnect m0 nmsgs)) = true.
-
-(* witness: reconnect() finishes its (empty) marking loop, the publisher appends, clear() discards the packet *)
-Definition witness_d : list tid := repeat (Pub 0) 7 ++ [Loop; Loop; Loop; Pub 0; Loop].
-
-Lemma no_silent_loss_refuted :
-  let c := sched_run witness_d (init_reconnect 0 [1%nat]) in
-  conserved c = false /\ out_packet c = [] /\ marked c = [] /\ wire c = [(1, Connect 1)] /\
-  sched_skipped witness_d (init_reconnect 0 [1%nat]) = O.
-Proof. vm_compute. repeat split; reflexivity. Qed.
-
-Lemma no_silent_loss_full_false : ~ no_silent_loss_full.
-Proof. intros H. specialize (H 0 [1%nat] witness_d). destruct no_silent_loss_refuted as (E & _). congruence. Qed.
-
-Theorem no_silent_loss_partial m0 l0 pipe0 nmsgs s : in_window_d l0 = false ->
-  safe_run race_d s (init m0 l0 pipe0 nmsgs) = true ->
+Theorem no_silent_loss m0 l0 pipe0 nmsgs s :
   conserved (sched_run s (init m0 l0 pipe0 nmsgs)) = true.
 Proof.
-  intros Hw Hsafe. apply DInv_conserved.
-  apply (safe_run_inv race_d DInv); [intros t c c'; apply DInv_step | assumption | apply DInv_init; assumption].
+  apply DInv_conserved. apply run_inv; [intros t c c'; apply DInv_step | apply DInv_init].
 Qed.
 
-(* the exclusions are satisfiable by schedules in which publishers and reconnect() really overlap *)
-Example exclusions_nonvacuous :
-  let s := [Pub 0; Loop; Pub 0; Loop; Loop; Pub 0; Loop; Pub 0; Pub 0; Pub 0; Loop; Loop; Pub 0; Loop; Loop; Loop;
-            Loop; Loop; Loop; Pub 0; Pub 0; Pub 0; Pub 0; Pub 0; Pub 0; Pub 0; Pub 0; Pub 0; Pub 0; Loop; Loop; Loop;
-            Loop; Loop; Loop; Loop; Loop] in
-  let c0 := init_reconnect 0 [2%nat] in
-  safe_run race_a s c0 && safe_run race_b s c0 && safe_run race_d s c0 = true /\
-  wire (sched_run s c0) = [(1, Connect 1); (2, Connect 2); (2, Publish 0 0 1)] /\
-  map results (pubs (sched_run s c0)) = [[(0%nat, 1, true)]] /\ sched_skipped s c0 = O.
+(* ------------------------------------------------------------------ the schedules that refuted the earlier code *)
+(* the interleavings of findings F-C07a, F-C07b, F-C07d, re-timed for the new step structure of reconnect():
+   a publisher passes the `_sock` test and appends while the loop thread is inside reconnect() *)
+Definition old_a : list tid := repeat Loop 3 ++ repeat (Pub 0) 8 ++ repeat Loop 9.
+Definition old_bd : list tid := repeat (Pub 0) 7 ++ [Loop; Loop; Pub 0] ++ repeat Loop 12.
+
+Example old_witnesses_now_hold :
+  let a := sched_run old_a (init_reconnect 0 [1%nat]) in
+  let b := sched_run old_bd (init_reconnect 0 [1%nat]) in
+  wire a = [(1, Connect 1); (2, Connect 2); (2, Publish 0 0 1)] /\ wire_ok (wire a) = true /\
+  sched_skipped old_a (init_reconnect 0 [1%nat]) = O /\
+  wire b = [(1, Connect 1); (2, Connect 2); (2, Publish 0 0 1)] /\ conserved b = true /\ marked b = [].
+Proof. vm_compute. repeat split; reflexivity. Qed.
+
+(* ... and a packet that IS in the queue when reconnect() drains it is marked, not written *)
+Example drained_packet_is_marked :
+  let s := repeat (Pub 0) 8 ++ repeat Loop 12 in
+  let c := sched_run s (init_reconnect 0 [1%nat]) in
+  marked c = [Publish 0 0 1] /\ wire c = [(1, Connect 1); (2, Connect 2)] /\ conserved c = true.
 Proof. vm_compute. repeat split; reflexivity. Qed.
